@@ -156,7 +156,7 @@ class SplineInterpolator1D():
             def js(span): return [(span-degree+s) %
                                   nb for s in range(degree+1)]
         else:
-            def js(span): return slice(span-degree, span+1)
+            def js(span): return range(span-degree, span+1)
 
         basis = np.empty(degree+1)
 
@@ -167,13 +167,17 @@ class SplineInterpolator1D():
             for i, x in enumerate(xgrid):
                 span, offset = cu_find_span(xmin, xmax, dx, x, ncells)
                 cu_basis_funs(span, offset, basis)
-                mat[i, js(span)] = basis
+                # A periodic basis function whose support is longer than the
+                # period (ncells == degree) meets the point more than once
+                for j, b in zip(js(span), basis):
+                    mat[i, j] += b
         else:
             # Fill in non-zero matrix values
             for i, x in enumerate(xgrid):
                 span = nu_find_span(knots, degree, x)
                 nu_basis_funs(knots, degree, x, span, basis)
-                mat[i, js(span)] = basis
+                for j, b in zip(js(span), basis):
+                    mat[i, j] += b
 
         return mat
 
